@@ -82,7 +82,7 @@ def expect_gear(a, b, eff):
         return ('reject', 'TypeError')
     if a is b:
         return ('reject', 'ValueError')
-    if isinstance(eff, bool) or not isinstance(eff, (int, float)):
+    if not isinstance(eff, (int, float)):
         return ('reject', 'TypeError')
     if eff > 1 or eff < 0:
         return ('reject', 'ValueError')
@@ -93,17 +93,21 @@ def expect_gear(a, b, eff):
         return ('reject', 'ValueError')
     if ha and not same_magnitude(a.helix_angle, b.helix_angle) and not (q_si(a.helix_angle) == 0 == q_si(b.helix_angle)):
         return ('reject', 'ValueError')
+    if isinstance(eff, bool):
+        # True / False are ints in Python: accepting them (as 1 / 0) and refusing them are both in line with "float or int";
+        # a refusal must leave both gears untouched like any other
+        return ('either', None)
     return ('accept', {'ratio': b.n_teeth / a.n_teeth, 'eff': eff})
 
 
-def expect_worm(a, b, f):
+def expect_worm(a, b, f, exact_threshold=False):
     mo = B.g().mo
     W = (mo.WormGear, mo.WormWheel)
     if not isinstance(a, W) or not isinstance(b, W):
         return ('reject', 'TypeError')
     if isinstance(a, mo.WormGear) == isinstance(b, mo.WormGear):
         return ('reject', 'TypeError')
-    if isinstance(f, bool) or not isinstance(f, (int, float)):
+    if not isinstance(f, (int, float)):
         return ('reject', 'TypeError')
     if f > 1 or f < 0:
         return ('reject', 'ValueError')
@@ -122,8 +126,12 @@ def expect_worm(a, b, f):
         r = wg.n_starts / wh.n_teeth
     if eta < -1e-12 or eta > 1 + 1e-12:
         return ('reject', 'ValueError')
-    if eta < 1e-12 or eta > 1 - 1e-12:
+    if eta < 1e-12 or eta > 1 - 1e-12 or isinstance(f, bool):
         return ('either', None)
+    if exact_threshold:
+        # f was computed by the caller as worm.pressure_angle.cos() * worm.helix_angle.tan(): exactly ON the threshold, and the
+        # documented condition f > cos(alpha) tan(beta) is strict
+        return ('accept', {'ratio': r, 'eff': eta, 'worm': wg, 'self_locking': False})
     crit = math.cos(q_si(wg.pressure_angle)) * math.tan(q_si(wg.helix_angle))
     margin = abs(f - crit) / max(abs(f), abs(crit), 1e-300)
     return ('accept', {'ratio': r, 'eff': eta, 'worm': wg, 'self_locking': (f > crit) if margin > 1e-9 else None})
@@ -146,8 +154,8 @@ import numpy as _np
 # in-range reals that are neither float nor int (documented parameter type: float or int): rejected, and like every rejection
 # without touching either element
 ODD_REALS = [_fr.Fraction(9, 10), _dec.Decimal('0.5'), _np.float32(0.5), _np.int64(1), _np.float16(0.25)]
-EFFS = [0.9, 1, 0, 0.5, 1.0, 0.05, 1.2, -0.1, 1.0000001, '0.9', None] + ODD_REALS
-FRICS = [0, 0.05, 0.05, 0.1, 0.3, 0.6, 1, 1.0, 0.9, 1.5, -0.2, '0.1'] + ODD_REALS[:3]
+EFFS = [0.9, 1, 0, 0.5, 1.0, 0.05, 1.2, -0.1, 1.0000001, '0.9', None, True, False] + ODD_REALS
+FRICS = [0, 0.05, 0.05, 0.1, 0.3, 0.6, 1, 1.0, 0.9, 1.5, -0.2, '0.1', True, False] + ODD_REALS[:3]
 
 
 class Call:
@@ -193,7 +201,13 @@ def do_call(rng, pool, extra_objects=()):
             if rng.random() < 0.1 and hasattr(c.a, 'pressure_angle') and hasattr(c.a, 'helix_angle'):
                 crit = math.cos(q_si(c.a.pressure_angle)) * math.tan(q_si(c.a.helix_angle))
                 c.param = rng.choice([crit, math.nextafter(crit, 2), math.nextafter(crit, -1)]) if 0 < crit < 1 else c.param
-            c.expect = expect_worm(c.a, c.b, c.param)
+            exact_ = False
+            wg_ = c.a if isinstance(c.a, mo.WormGear) else (c.b if isinstance(c.b, mo.WormGear) else None)
+            if wg_ is not None and rng.random() < 0.08:
+                lc_ = wg_.pressure_angle.cos() * wg_.helix_angle.tan()
+                if 0 < lc_ < 1:
+                    c.param, exact_ = lc_, True
+            c.expect = expect_worm(c.a, c.b, c.param, exact_threshold=exact_)
             ut.add_worm_gear_mating(master=c.a, slave=c.b, friction_coefficient=c.param)
         else:
             c.expect = expect_joint(c.a, c.b)
